@@ -14,19 +14,19 @@ import (
 
 func init() {
 	register("C03", &propDef{
-		Run: checkC03,
-		Explanation: "Static decision of the structural clauses of C03 in the output proxy (the unique function sending Plain CLines on Broker.och) and its reader goroutine: (1) what crosses the internal queue is a copy of the read buffer (string conversion / clone), never a sub-slice of the reused buffer; (2) reader side: after a Read, every path on which n != 0 hands the data to the queue, through a blocking select whose only alternative is cancellation, before the read's error is queued, the next Read happens, or the goroutine ends; (3) forwarder side: for one dequeued item the data is handed to the operator channel (blocking select, only alternative cancellation) before the item's error is even looked at; (4) identity data flow: the Line of the Plain CLine is exactly the dequeued chunk, Plain is the constant true, handleOutput passes cl.Line of Plain lines to writePlain, and writePlain writes its parameter unchanged; (5) Plain lines are sent from the proxy's own goroutine only, and the close notice is emitted after the proxy has returned (same goroutine, same FIFO channel). What the terminal does with the bytes and read sizes are not covered.",
+		Run:         checkC03,
+		Explanation: "Static decision of the structural clauses of C03 in the output proxy (the unique function sending Plain CLines on Broker.och) and its reader goroutine: (1) what crosses the internal queue is a copy of the read buffer (string conversion / clone), never a sub-slice of the reused buffer; (2) reader side: after a Read, every path on which n != 0 hands the data to the queue, through a blocking select whose only alternative is cancellation, before the read's error is queued, the next Read happens, or the goroutine ends; (3) forwarder side: for one dequeued item the data is handed to the operator channel (blocking select, only alternative cancellation) before the item's error is even looked at; (4) identity data flow: the Line of the Plain CLine is exactly the dequeued chunk, Plain is the constant true, handleOutput passes cl.Line of Plain lines to writePlain, and writePlain writes its parameter unchanged; (5) Plain lines are sent from the proxy's own goroutine only, and the close notice is emitted after the proxy has returned (same goroutine, same FIFO channel). What the terminal does with the bytes and read sizes are not covered. Also: the buffer given to Read is allocated by the reader itself (not a field or package variable shared between streams).",
 		Assumptions: []string{"Go channels are FIFO", "string([]byte) copies"},
 	})
 }
 
 // queueSend is one send operation (plain or select arm) of a struct literal.
 type queueSend struct {
-	Instr  ssa.Instruction
-	Sel    *ssa.Select /* nil for a plain Send */
-	Arm    int
-	Val    ssa.Value
-	Chan   ssa.Value
+	Instr ssa.Instruction
+	Sel   *ssa.Select /* nil for a plain Send */
+	Arm   int
+	Val   ssa.Value
+	Chan  ssa.Value
 }
 
 func sendsIn(fn *ssa.Function) []queueSend {
